@@ -28,6 +28,8 @@ THEOREMS = [
     "Mesa.Viz.C20_markers_inside_the_limits",
     "Mesa.Viz.C20_network_markers_at_layout_positions",
     "Mesa.Viz.C20_plot_one_line_per_requested_measure",
+    "Mesa.Viz.C20_plot_lines_labelled_and_coloured",
+    "Mesa.Viz.C20_plot_backend_and_empty_layout",
     "Mesa.Viz.C20_altair_one_row_per_agent",
     "Mesa.Viz.C20_altair_row_values",
     "Mesa.Viz.C20_altair_chart_encoding",
